@@ -155,7 +155,7 @@ func storeInstr(r *rng.R, p *progBuilder, a uint16, c02 bool, idx int) {
 	alts[r.Intn(len(alts))]()
 }
 
-var trapAddrChoices = []uint16{0x3C80, 0x00F0, 0x01F0, 0x2DDD, 0x3CFF, 0x3C00, 0x0100, 0x00FF, 0x01FF, 0xFFF0, 0xFF00}
+var trapAddrChoices = []uint16{0x3C80, 0x00F0, 0x01F0, 0x2DDD, 0x3CFF, 0x3C00, 0x0100, 0x00FF, 0x01FF, 0xFFF0, 0xFF00, 0x8000, 0x80FF, 0xD0F0, 0xFFFF, 0x7FFF}
 
 type trapCase struct {
 	model int
@@ -362,8 +362,8 @@ type portCase struct {
 }
 
 func genPortCase(r *rng.R) *portCase {
-	c := &portCase{ioMask: []uint8{0x2D, 0x3C, 0x02, 0x01, 0x00, 0xFF}[r.Intn(6)], ports: map[uint8]string{}, spec: "Linear64K"}
-	if r.Chance(40) && c.ioMask != 0xFF {
+	c := &portCase{ioMask: []uint8{0x2D, 0x3C, 0x02, 0x01, 0x00, 0xFF, 0x80, 0xD0, 0x7F}[r.Intn(9)], ports: map[uint8]string{}, spec: "Linear64K"}
+	if r.Chance(40) && c.ioMask < 0x40 {
 		// the port layer sits on top of every memory model (the last page only where every model has plain memory)
 		c.spec = memSpecs[r.Intn(len(memSpecs))]
 	}
